@@ -5,6 +5,7 @@ HERE="$(cd "$(dirname "$0")" && pwd)"
 cd "$HERE"
 REPO="${VERIF_REPO:-/repo}"
 env -u PYCAPTION_DEFAULT_LANG PYTHONPATH="$REPO" PYTHONHASHSEED=0 /venv/bin/python gen/gen_tables.py coq/model/Generated.v
+/venv/bin/python tools/genproject.py
 cd coq
 coq_makefile -f _CoqProject -o Makefile.coq
 timeout 3000 make -f Makefile.coq -j16
